@@ -1,8 +1,8 @@
 ---------------------------- MODULE InstancesMC ----------------------------
 (* populations for Instances.tla; Pop selects one *)
 EXTENDS Integers, Sequences, FiniteSets, TLC
-CONSTANTS Pop, Bar
-VARIABLES est, ecnt, builders, dst, dcnt, geom, rtcd, head, mine, bad
+CONSTANTS Pop, Bar, Ser
+VARIABLES est, ecnt, builders, dst, dcnt, geom, rtcd, ports, head, mine, bad
 
 EncOf == CASE Pop = "same"      -> {"e1", "e2"}
            [] Pop = "same3"     -> {"e1", "e2", "e3"}
@@ -10,15 +10,19 @@ EncOf == CASE Pop = "same"      -> {"e1", "e2"}
            [] Pop = "diffflags" -> {"e1", "e2"}
            [] Pop = "dec2"      -> {"e1"}
            [] Pop = "encdec"    -> {"e1", "e2"}
+           [] Pop = "concinit"  -> {"e1", "e2"}
 DecOf == CASE Pop \in {"same", "encdec"} -> {"d1"}
            [] Pop = "dec2"      -> {"d1", "d2"}
            [] OTHER             -> {}
 SbOf == CASE Pop = "diffsb" -> [e \in EncOf |-> IF e = "e1" THEN 128 ELSE 64]
           [] OTHER          -> [e \in EncOf |-> 64]
+(* process counts differ with resolution / thread count; same class in the "same*" populations only *)
+ProcsOf == CASE Pop \in {"same", "same3"} -> [e \in EncOf |-> 4]
+             [] OTHER -> [e \in EncOf |-> IF e = "e1" THEN 4 ELSE 7]
 FlagsOf == CASE Pop = "diffflags" -> [e \in EncOf |-> IF e = "e1" THEN {"c"} ELSE {"c", "avx2"}]
              [] OTHER             -> [e \in EncOf |-> {"c", "avx2"}]
 
-I == INSTANCE Instances WITH Enc <- EncOf, Dec <- DecOf, Sb <- SbOf, Flags <- FlagsOf, Barrier <- Bar, Steps <- 2, Allocs <- 2
+I == INSTANCE Instances WITH Enc <- EncOf, Dec <- DecOf, Sb <- SbOf, Flags <- FlagsOf, Procs <- ProcsOf, Barrier <- Bar, SerialInit <- Ser, Steps <- 2, Allocs <- 2
 Spec == I!Spec
 FairSpec == I!FairSpec
 NoInterference == I!NoInterference
